@@ -16,11 +16,12 @@ func H_C04_gc() {
 	w.Put2(c.item(ka, 1))
 	w.Put2(c.item(kb, 2))
 	s1, _ := db.NewSnapshot()
-	w.Delete(c.item(ka, 0))
+	w.Delete(c.item(ka, 0)) // dead version of ka: lands in the garbage list of the next snapshot (sOld2)
+	sOld2, _ := db.NewSnapshot()
 	if vChoice("reinsert", 0, 2) == 1 {
 		w.Put2(c.item(ka, 3))
 	}
-	s2, _ := db.NewSnapshot()
+	s2, _ := db.NewSnapshot() // the reader's snapshot: the dead version is invisible to it but physically present
 	refresh := vRange("refreshrate", 0, 0, 1)
 	var wg sync.WaitGroup
 	wg.Add(2)
@@ -49,12 +50,16 @@ func H_C04_gc() {
 	go func() {
 		vThread("C")
 		s1.Close()
+		sOld2.Close() // now the collector may unlink and free the dead version
 		vThreadDone("C")
 		wg.Done()
 	}()
 	wg.Wait()
 	vConcurrent(false)
 	vQuiesce()
+	if db.GetLastGCSn() >= sOld2.sn {
+		vReach("dead-version-collected-while-reader-snapshot-open")
+	}
 	s2.Close()
 	db.Close()
 	vAssert(vLiveBlocks() == 0, "every block returned after Close")
